@@ -240,7 +240,7 @@ theorem vwma_within (p : Nat) (c v : Nat → K) (lo hi : K) (hp : 1 ≤ p)
     have := wmean_between p v c lo hi hv hpos hc
     simpa [mul_comm] using this
 
-/-! ### HMA (assembly only) -/
+/-! ### HMA (one call; the whole series is below) -/
 
 /-- **HMA raw series** = `2·WMA(period/2) − WMA(period)`; the reading is the `WMA(√period)` helper
 over that series (the helper is an ordinary WMA, covered by `wma`). -/
@@ -392,6 +392,153 @@ example : ∃ vs : List (Val ℚ), vs.length = demoRaw.length ∧
       DirectOK 2 4 (vwmaAt (fieldAt (·.c) demoRaw) (fieldAt (·.v) demoRaw) 2) j (vs.getD j .none) :=
   vwma_series 2 (by norm_num) "VWMA_2" 4 (by decide) demoRaw demoRaw_plain
 
+/-! ### the leaf averages through the engine and the object -/
+
+/-- **… through the engine and the object.**  For every `Covered` leaf kind – SMA, EMA, RMA, WMA,
+VWMA with `period ≥ 1`, an ordinary name and a candle-attribute input – and every raw stream:
+whenever the row-major run of the series theorems above returns `out`, the engine's `calculate()`
+on the raw candles (`engineCalc` = `calculate` with the fuel the object passes) and the batch run
+of the object (build over the whole stream, `calculate()` once) return exactly `out`. -/
+theorem series_engine (k : Kind K) (nm : String) (n : Nat) (hc : Covered nm k)
+    (raw : List (Candle K)) (hraw : ∀ c ∈ raw, Plain c) (out : List (Candle K))
+    (h : rowMajor (mkTop k nm n) raw = .ok out) :
+    engineCalc (mkTop k nm n) raw = .ok out ∧
+    candlesOf (runIndicator (mkTop k nm n) {} raw []) = .ok out :=
+  leaf_series_engine k nm n hc raw hraw out h
+
+/-- **… for every append schedule**: whenever a live history (construction over `init`,
+`calculate()`, then the appends `chunks`, each followed by `calculate()`) returns `snap`, `snap` is
+the row-major run over the whole stream – the candles the series theorems describe. -/
+theorem series_live (k : Kind K) (nm : String) (n : Nat) (hc : Covered nm k)
+    (init : List (Candle K)) (chunks : List (List (Candle K)))
+    (hraw : ∀ c ∈ init ++ chunks.flatten, Plain c) (snap out : List (Candle K))
+    (hsnap : candlesOf (runIndicator (mkTop k nm n) {} init chunks) = .ok snap)
+    (h : rowMajor (mkTop k nm n) (init ++ chunks.flatten) = .ok out) : snap = out :=
+  leaf_series_live k nm n hc init chunks hraw snap out hsnap h
+
+/-- `SMA_3` over the demo candles, through the engine and the object -/
+example : ∃ vs : List (Val ℚ), vs.length = demoRaw.length ∧
+    engineCalc (mkTop (.sma (3 : Nat) "close") "SMA_3" 4) demoRaw = .ok (deco "SMA_3" demoRaw vs) ∧
+    candlesOf (runIndicator (mkTop (.sma (3 : Nat) "close") "SMA_3" 4) {} demoRaw []) = .ok (deco "SMA_3" demoRaw vs) ∧
+    ∀ j, j < demoRaw.length → SmaOK 3 4 (fieldAt (·.c) demoRaw) j (vs.getD j .none) := by
+  obtain ⟨vs, h1, h2, h3⟩ := sma_series 3 (by norm_num) "SMA_3" "close" (·.c) 4 (by decide) noDot_close
+    (fun _ => rfl) demoRaw demoRaw_plain
+  obtain ⟨e1, e2⟩ := series_engine _ "SMA_3" 4
+    (Covered.sma _ _ (by decide) (by decide) ⟨noDot_close, by decide⟩) demoRaw demoRaw_plain _ h2
+  exact ⟨vs, h1, e1, e2, h3⟩
+
+/-! ### HMA, whole series (two prior WMA helpers, managed raw series, smoothing WMA) -/
+
+/-- **HMA, whole series** (row-major run of `hmaTree`; `period = p ≥ 2`, input a candle field, the
+five names `name`, `name_WMA`, `name_WMAh`, `name_HMAr`, `name_HMAs` ordinary pairwise distinct keys:
+`HmaNames`).  For EVERY raw stream the run returns, and the result is `hmaDeco`: candle `j` is raw
+candle `j` carrying exactly the row `hmaRow p x j` – an explicit function of the raw candles
+(`x` = the input series): `name_WMA = round₄(WMA_p(x))` from index `p − 1`,
+`name_WMAh = round₄(WMA_{⌊p/2⌋}(x))` from `⌊p/2⌋ − 1`, `name_HMAr = 2·name_WMAh − name_WMA` UNROUNDED
+from `p − 1`, `name_HMAs = round₄(WMA_{⌊√p⌋}(name_HMAr))` from the TRUE WARM-UP INDEX
+`hmaT0 p = (p − 1) + (⌊√p⌋ − 1)`, own reading `= round_n(name_HMAs)`. -/
+theorem hma_series (p : Nat) (hp : 2 ≤ p) (nm input : String) (fld : Candle K → Num K) (n : Nat)
+    (hn : HmaNames nm) (hin : NoDot input ∧ input ∈ Candle.attrNames)
+    (hattr : ∀ c : Candle K, c.attr input = some (.num (fld c)))
+    (raw : List (Candle K)) (hraw : ∀ c ∈ raw, Plain c) :
+    Gen.rowMajor (hmaTree (F := K) nm n (p : Int) input (by omega) hn hin).S raw
+      = .ok (hmaDeco nm n p fld raw) :=
+  Numeric.hma_series p hp nm input fld n hn hin hattr raw hraw
+
+/-- **HMA, whole series, candle by candle**: candle `j` of `hmaDeco` is raw candle `j` (same bare
+candle) and its five entries satisfy `HmaOK` against the textbook series
+`hmaSeries p x = WMA_{⌊√p⌋}(2·WMA_{⌊p/2⌋}(x) − WMA_p(x))`:
+`name_WMA` / `name_WMAh` `None` before `p − 1` / `⌊p/2⌋ − 1`, then within `ε₄`;
+`name_HMAr` absent before `p − 1`, then exactly `2·name_WMAh − name_WMA` of the stored readings,
+within `3·ε₄` of the textbook raw value; `name_HMAs` `None` before `hmaT0 p`, then within `4·ε₄`
+(the budget does not grow: WMA is a convex combination); the own reading `None` before `hmaT0 p`,
+then within `ε_n + 4·ε₄` of the textbook HMA. -/
+theorem hma_candles (p : Nat) (hp : 2 ≤ p) (nm : String) (fld : Candle K → Num K) (n : Nat)
+    (hn : HmaNames nm) (raw : List (Candle K)) (hraw : ∀ c ∈ raw, Plain c) (j : Nat) (hj : j < raw.length) :
+    ((hmaDeco nm n p fld raw).getD j default).bare = (raw.getD j default).bare ∧
+    HmaOK n p (fieldAt fld raw) j
+      (readingByCandle ((hmaDeco nm n p fld raw).getD j default) nm)
+      (readingByCandle ((hmaDeco nm n p fld raw).getD j default) (nm ++ "_WMA"))
+      (readingByCandle ((hmaDeco nm n p fld raw).getD j default) (nm ++ "_WMAh"))
+      (readingByCandle ((hmaDeco nm n p fld raw).getD j default) (nm ++ "_HMAr"))
+      (readingByCandle ((hmaDeco nm n p fld raw).getD j default) (nm ++ "_HMAs")) :=
+  hmaDeco_ok p hp nm fld n hn raw hraw j hj
+
+/-- **the rounding budget of the stored smoothed reading**: `4·ε₄` at EVERY index (`3·ε₄` from the
+two rounded helpers entering `2·WMAh − WMA`, not amplified by the smoothing WMA, plus its own
+rounding to 4 decimals); the true warm-up index is the sum of the two waits. -/
+theorem hma_budget (p : Nat) (x : Nat → K) (hp : 1 ≤ p) (j : Nat) :
+    |hmaS4 p x j - hmaExact p x j| ≤ 4 * eps K defaultRound ∧ hmaT0 p = (p - 1) + (Nat.sqrt p - 1) :=
+  ⟨hmaS4_err p x hp j, hmaT0_eq p hp⟩
+
+/-- with the default `rounding = 4` the own reading IS the stored `name_HMAs` reading -/
+theorem hma_own_default {p : Nat} {x : Nat → K} {j : Nat} {own w wh r s : Val K}
+    (h : HmaOK defaultRound p x j own w wh r s) : own = s :=
+  h.own_default
+
+/-- **… through the object**: building the indicator over the raw candles and calling `calculate()`
+once (the batch run) returns exactly the candles of `hma_series`. -/
+theorem hma_series_batch (p : Nat) (hp : 2 ≤ p) (nm input : String) (fld : Candle K → Num K) (n : Nat)
+    (hn : HmaNames nm) (hin : NoDot input ∧ input ∈ Candle.attrNames)
+    (hattr : ∀ c : Candle K, c.attr input = some (.num (fld c)))
+    (raw : List (Candle K)) (hraw : ∀ c ∈ raw, Plain c) :
+    candlesOf (runIndicator (mkTop (.hma (p : Int) input : Kind K) nm n) {} raw [])
+      = .ok (hmaDeco nm n p fld raw) :=
+  Numeric.hma_series_batch p hp nm input fld n hn hin hattr raw hraw
+
+/-- **… and through the engine**: `calculate()` on the raw candles returns the same candles. -/
+theorem hma_series_engine (p : Nat) (hp : 2 ≤ p) (nm input : String) (fld : Candle K → Num K) (n : Nat)
+    (hn : HmaNames nm) (hin : NoDot input ∧ input ∈ Candle.attrNames)
+    (hattr : ∀ c : Candle K, c.attr input = some (.num (fld c)))
+    (raw : List (Candle K)) (hraw : ∀ c ∈ raw, Plain c) :
+    engineCalc (mkTop (.hma (p : Int) input : Kind K) nm n) raw = .ok (hmaDeco nm n p fld raw) :=
+  Numeric.hma_series_engine p hp nm input fld n hn hin hattr raw hraw
+
+/-- **whenever the batch run returns, its candles carry exactly those readings** (and it does
+return: `hma_series_batch`): same length, same bare candles, `HmaOK` on every candle. -/
+theorem hma_batch_readings (p : Nat) (hp : 2 ≤ p) (nm input : String) (fld : Candle K → Num K) (n : Nat)
+    (hn : HmaNames nm) (hin : NoDot input ∧ input ∈ Candle.attrNames)
+    (hattr : ∀ c : Candle K, c.attr input = some (.num (fld c)))
+    (raw : List (Candle K)) (hraw : ∀ c ∈ raw, Plain c) (out : List (Candle K))
+    (hout : candlesOf (runIndicator (mkTop (.hma (p : Int) input : Kind K) nm n) {} raw []) = .ok out) :
+    out = hmaDeco nm n p fld raw ∧ out.length = raw.length ∧
+    ∀ j, j < raw.length →
+      (out.getD j default).bare = (raw.getD j default).bare ∧
+      HmaOK n p (fieldAt fld raw) j
+        (readingByCandle (out.getD j default) nm) (readingByCandle (out.getD j default) (nm ++ "_WMA"))
+        (readingByCandle (out.getD j default) (nm ++ "_WMAh")) (readingByCandle (out.getD j default) (nm ++ "_HMAr"))
+        (readingByCandle (out.getD j default) (nm ++ "_HMAs")) :=
+  Numeric.hma_batch_readings p hp nm input fld n hn hin hattr raw hraw out hout
+
+/-- **… for every append schedule**: whenever a live history (construction over `init`,
+`calculate()`, then any appends) returns, its candles are those of `hma_series` over the whole
+stream. -/
+theorem hma_series_live (p : Nat) (hp : 2 ≤ p) (nm input : String) (fld : Candle K → Num K) (n : Nat)
+    (hn : HmaNames nm) (hin : NoDot input ∧ input ∈ Candle.attrNames)
+    (hattr : ∀ c : Candle K, c.attr input = some (.num (fld c)))
+    (init : List (Candle K)) (chunks : List (List (Candle K)))
+    (hraw : ∀ c ∈ init ++ chunks.flatten, Plain c) (snap : List (Candle K))
+    (hsnap : candlesOf (runIndicator (mkTop (.hma (p : Int) input : Kind K) nm n) {} init chunks) = .ok snap) :
+    snap = hmaDeco nm n p fld (init ++ chunks.flatten) :=
+  Numeric.hma_series_live p hp nm input fld n hn hin hattr init chunks hraw snap hsnap
+
+/-- `HMA(period = 4)` on `close` over the five demo candles (closes 11, 12, 14, 15, 15): the batch
+run returns `hmaDeco`; the true warm-up index is `hmaT0 4 = (4 − 1) + (2 − 1) = 4`; on candle 4 the
+own reading is within `ε₄ + 4·ε₄` of the textbook value.  (HexProofs/Numeric/SeriesHMA.lean evaluates
+this run: `HMA_4_WMA = 13.7`, `HMA_4_WMAh = 14.6667`, `HMA_4_HMAr = 15.6334`, `HMA_4_HMAs = None` on
+candle 3; `HMA_4_HMAr = 15.5`, `HMA_4_HMAs = HMA_4 = 15.5445` on candle 4; textbook `1399/90`.) -/
+example : candlesOf (runIndicator (mkTop (.hma ((4 : Nat) : Int) "close" : Kind ℚ) "HMA_4" 4) {} demoRaw [])
+      = .ok (hmaDeco "HMA_4" 4 4 (·.c) demoRaw) ∧
+    Within (hmaSeries 4 (fieldAt (·.c) demoRaw) 4) (eps ℚ 4 + 4 * eps ℚ defaultRound)
+      (readingByCandle ((hmaDeco "HMA_4" 4 4 (·.c) demoRaw).getD 4 default) "HMA_4") :=
+  ⟨hma_series_batch 4 (by norm_num) "HMA_4" "close" (·.c) 4 hmaNames_demo ⟨noDot_close, by decide⟩
+      (fun _ => rfl) demoRaw demoRaw_plain,
+   (hma_candles 4 (by norm_num) "HMA_4" (·.c) 4 hmaNames_demo demoRaw demoRaw_plain 4 (by decide)).2.own_ok⟩
+
+example : hmaT0 4 = 4 := by rw [(hma_budget (K := ℚ) 4 (fun _ => 0) (by norm_num) 0).2, sqrt_four]
+
+/-! ### what is still open -/
+
 /-- the input series read off a candle list: `none` where the input reading is missing -/
 def inputAt (cs : List (Candle K)) (input : String) (j : Nat) : Option K :=
   match readingByCandle (cs.getD j default) input with
@@ -399,18 +546,23 @@ def inputAt (cs : List (Candle K)) (input : String) (j : Nat) : Option K :=
   | _ => none
 
 /-- The full property, stated for SMA (EMA, RMA, WMA, VWMA, HMA: the same shape with `RecOK` /
-`DirectOK` and their exact series): for EVERY candle list – possibly already holding other
+`DirectOK` / `HmaOK` and their exact series): for EVERY candle list – possibly already holding other
 indicators' readings – and every input name (a candle field or another indicator's reading that is
-missing on the first `t0` candles and numeric afterwards), the ENGINE `calculate` never raises and
+missing on the first `t0` candles and numeric afterwards), the ENGINE `calculate()` never raises and
 stores under `nm` exactly `None` on the first `t0 + period − 1` candles and afterwards a float
 within the budget of the mean of the last `period` inputs – i.e. the result depends on the input
 values only, not on `t0`.
-NOT proved.  Proved instead: the same statement for raw candles and candle-field inputs on the
-row-major spec (`sma_series` … `vwma_series`; C01 ties `rowMajor` to `calculate` for SMA), and, for
-arbitrary inputs and start positions, every single call (`sma_seed`, `sma_step`, `ema_*`, `rma_*`,
-`wma`, `vwma`, `*_position_independent`).  Missing: the series induction over candle lists that
-hold foreign readings (needs the key-locality half of the framework `Contract` for every kind),
-leaf contracts for EMA/RMA/WMA/VWMA, and HMA through its managed `_HMAr` series. -/
+(Corrected statement: the earlier version ran `calculate (fuelFor cs)`; what the object's
+`calculate()` runs is `engineCalc ind cs = calculate (fuelFor cs + 1) ind cs` – `IndState.calculate_engine`
+– and that is what the proved instances below and C01 are about.)
+NOT proved.  Proved instead: the instance for raw candles and candle-field inputs (`t0 = 0`,
+`C04_FULL_raw`; likewise EMA, RMA, WMA, VWMA by `*_series` + `series_engine`, HMA by
+`hma_series_engine`, every append schedule by `series_live` / `hma_series_live`), and, for arbitrary
+inputs and start positions, every single call (`sma_seed`, `sma_step`, `ema_*`, `rma_*`, `wma`,
+`vwma`, `*_position_independent`).  Missing: the series induction over candle lists that hold
+foreign readings and a late-starting reading as input (needs the key-locality half of the framework
+`Contract` along foreign columns for every kind), the composition with a collapsing timeframe, IEEE
+effects. -/
 def C04_FULL : Prop :=
   ∀ (K : Type) [Field K] [LinearOrder K] [IsStrictOrderedRing K] [LawfulPyF K]
     (p : Nat) (nm input : String) (n t0 : Nat) (cs : List (Candle K)) (x : Nat → K),
@@ -418,8 +570,19 @@ def C04_FULL : Prop :=
     (∀ c ∈ cs, dlookup nm c.inds = none ∧ dlookup nm c.subs = none) →
     (∀ j, j < cs.length → inputAt cs input j = if j < t0 then none else some (x (j - t0))) →
     ∃ vs : List (Val K), vs.length = cs.length ∧
-      calculate (fuelFor cs) (mkTop (.sma p input) nm n) cs = .ok (deco nm cs vs) ∧
+      engineCalc (mkTop (.sma p input) nm n) cs = .ok (deco nm cs vs) ∧
       ∀ j, j < cs.length →
         (j < t0 → vs.getD j .none = .none) ∧ (t0 ≤ j → SmaOK p n x (j - t0) (vs.getD j .none))
+
+/-- **the proved instance of `C04_FULL`**: raw candles (no foreign readings), input a candle field
+(`t0 = 0`) – the engine's `calculate()` never raises and stores the SMA series of `sma_series`. -/
+theorem C04_FULL_raw (p : Nat) (hp : 2 ≤ p) (nm input : String) (fld : Candle K → Num K) (n : Nat)
+    (hk : IsKey nm) (hin : AttrInput input) (hattr : ∀ c : Candle K, c.attr input = some (.num (fld c)))
+    (raw : List (Candle K)) (hraw : ∀ c ∈ raw, Plain c) :
+    ∃ vs : List (Val K), vs.length = raw.length ∧
+      engineCalc (mkTop (.sma p input) nm n) raw = .ok (deco nm raw vs) ∧
+      ∀ j, j < raw.length → SmaOK p n (fieldAt fld raw) j (vs.getD j .none) := by
+  obtain ⟨vs, h1, h2, h3⟩ := sma_series p hp nm input fld n hk hin.1 hattr raw hraw
+  exact ⟨vs, h1, (series_engine _ nm n (Covered.sma _ _ (by omega) hk hin) raw hraw _ h2).1, h3⟩
 
 end Hex.C04
